@@ -19,6 +19,7 @@ PROPS = {
     "C02": "vp.harness.c02_layout",
     "C03": "vp.harness.c03_mirror",
     "C04": "vp.harness.c04_expr",
+    "C05": "vp.harness.c05_rules",
     "C06": "vp.harness.c06_serdes",
     "C07": "vp.harness.c07_deser",
     "C11": "vp.harness.c11_xdef",
